@@ -16,6 +16,9 @@ CRAFTED = {
     "generic.f90": "module gm\n  interface gen\n    module procedure g1\n  end interface gen\n  type :: tt\n  contains\n    procedure :: b1\n    generic :: gb => b1\n  end type tt\n  procedure(gen), pointer :: pp\ncontains\n  subroutine g1(x)\n    integer :: x\n  end subroutine g1\n  subroutine b1(self)\n    class(tt) :: self\n  end subroutine b1\n  subroutine u()\n    type(tt) :: o\n    call o%gb()\n    call pp(1)\n    call gen(2)\n  end subroutine u\nend module gm\n",
     "intr.f90": "program pi\n  use iso_fortran_env\n  use iso_c_binding, only: c_int\n  integer(int32) :: k\n  integer(c_int) :: c\n  real :: r\n  r = abs(r) + sqrt(r) + real(k)\n  print *, size([1,2]), len_trim('a'), merge(1,2,.true.)\n  allocate(character(len=3) :: s)\n  open(unit=10, file='x', status='old')\nend program pi\n",
     "empty.f90": "",
+    "mac.F90": "#define DP_REAL real(kind=selected_real_kind(15, 307))\n#define ELEM pure elemental\nmodule mm\n  DP_REAL :: tol\ncontains\n  ELEM real function f(x)\n    real, intent(in) :: x\n    f = x + tol\n  end function f\n  subroutine s()\n    tol = f(1.0)\n  end subroutine s\nend module mm\n",
+    "small.f90": "integer :: only_line\n",
+    "incl2.f90": "program pi2\n  implicit none\n  integer :: a1\n  integer :: a2\n  integer :: a3\n  include 'small.f90'\nend program pi2\n",
     "incl.f90": "program pinc\n  include 'top.f90'\n  include \"nosuch.f90\"\nend program pinc\n",
     "odd.f90": "subroutine &\n  & s(a, &\n  b)\n  character(len=*) :: a, b ! tail\n  a = 'it''s' // \"q\" ; b = a\n  if (a == b) then ; end if\nend subroutine s\n!> doc\n\n",
 }
